@@ -29,6 +29,9 @@ class ModelFieldsPercentMatch(ModelCmp):
         self.percent_fields = percent_fields
 
     def cmp(self, fields_a: set, fields_b: set) -> bool:
+        if not fields_a and not fields_b:
+            # Two models without fields are equal
+            return True
         return len(fields_a & fields_b) / len(fields_a | fields_b) >= self.percent_fields
 
 
